@@ -40,8 +40,8 @@ FMT = ("f", 6)
 
 @st.composite
 def _case(draw, kind, n_min=1, n_max=4):
-    route = draw(st.sampled_from(["function", "class", "potable"]))
-    m = draw(gen.eam_model(kind, n_min, n_max, depth=1, pycallables=(route != "potable")))
+    route = draw(st.sampled_from(["function", "class", "potable", "main"]))
+    m = draw(gen.eam_model(kind, n_min, n_max, depth=1, pycallables=(route not in ("potable", "main"))))
     m["route"] = route
     return m
 
@@ -211,8 +211,8 @@ def check_case(m):
     except (DomainError, OverflowError, ZeroDivisionError):
         return {"v": [], "cls": cls, "nt": False, "skip": True}
     try:
-        if route == "cli":
-            res = libroute.run_potable([], ctx)
+        if route in ("cli", "main"):
+            res = (libroute.run_potable_main if route == "main" else libroute.run_potable)([], ctx)
             if res["rc"] != 0 or res["out"] is None:
                 return {"v": [("cli:failed", "rc=%r %s\n%s" % (res["rc"], res["stderr"][-500:], ctx))], "cls": cls, "nt": False}
             out = res["out"].decode()
